@@ -6,6 +6,8 @@
    The model is the REPAIRED collator (proposed-fixes/F15-collator-maxlen1.diff); the pinned shortcut is refuted below. *)
 From Coq Require Import String List ZArith Arith Bool.
 Require Import Result Tensor C20_Collate C20_Spec C20_Pad C20_Rows C20_Dispatch C20_Repair C20_Examples Gen_C20 C20_GenTie.
+From Coq Require Import Permutation.
+Require Import C20_DictOrder.
 Import ListNotations.
 
 (* ---- one field: tensors (clauses 1-3 of the statement) *)
@@ -113,6 +115,18 @@ Theorem dict_fields :
       exists vs ok, rmapM (field k) rest = Ok vs /\ collate_t v vs 0%Z = Ok ok /\ assoc k os = Some ok.
 Proof. exact C20_Dispatch.dict_fields. Qed.
 Print Assumptions dict_fields.
+
+(* ... and the fields are gathered BY KEY: later examples whose dictionaries answer every key lookup alike - in particular the same
+   items in another insertion order, keys distinct - give the same batch *)
+Theorem dict_batch_by_key :
+  forall kvs rest rest' pv, Forall2 same_lookups rest rest' ->
+  collate_t (VDict kvs) rest pv = collate_t (VDict kvs) rest' pv.
+Proof. exact C20_DictOrder.dict_batch_by_key. Qed.
+Print Assumptions dict_batch_by_key.
+Theorem dict_items_order_irrelevant :
+  forall kvs kvs', NoDup (map fst kvs) -> Permutation kvs kvs' -> same_lookups (VDict kvs) (VDict kvs').
+Proof. exact C20_DictOrder.permuted_items_same_lookups. Qed.
+Print Assumptions dict_items_order_irrelevant.
 
 (* dictionaries nested in dictionaries, any depth: the entry at a path is the collation of the examples' entries at that path *)
 Theorem nested_dicts :
